@@ -56,7 +56,7 @@ def _leave_loop(it, s):
 
 def run_stream(cfg, passes=1, observe=None, rng=None, record=False,
                extra_next=3, finalize_mode="eager", overshoot_steps=0,
-               protocol="next", late=0, refinalize=False):
+               protocol="next", late=0, refinalize=False, probe=False):
     """Drive one schedule to completion of `passes` adjoint calculations.
 
     observe: None | "flags" (is_exhausted/is_running before and after every
@@ -86,7 +86,9 @@ def run_stream(cfg, passes=1, observe=None, rng=None, record=False,
         cap = 4 * n_true * (want + 1) + 50
 
     def sample_storage(moment):
-        for st in ALL_ST:
+        order = list(ALL_ST)
+        rng.shuffle(order)       # the answer must not depend on query order
+        for st in order:
             try:
                 ans = s.uses_storage_type(st)
             except Exception as e:
@@ -146,11 +148,41 @@ def run_stream(cfg, passes=1, observe=None, rng=None, record=False,
     final_emitted = False
     it = None
     late_left = late if ex.online else 0
+    told = 0
     while not done:
         if idx >= cap:
             ex.ck("C02", "bounded_progress", False,
                   f"stream did not conclude within {cap} actions")
             break
+        if probe and rng.random() < 0.2:
+            # a finalize call that must be rejected and must change nothing:
+            # beyond what the forward was told / a wrong step count / < 1
+            if ex.finalized:
+                ks = [0, -3, n_true + 1, n_true + 7] + \
+                    ([n_true - 1] if n_true > 1 else [])
+            else:
+                ks = [0, told + 1, told + 9]
+            k = rng.choice(ks)
+            try:
+                s.finalize(k)
+                ex.ck("C10", "hostile_finalize_rejected", False,
+                      f"finalize({k}) was accepted (finalised="
+                      f"{ex.finalized}, told={told}, true n={n_true}) "
+                      f"before action #{idx}")
+            except (ValueError, RuntimeError):
+                ex.evals["C10.hostile_finalize_rejected"] += 1
+            except Exception as e:
+                ex.ck("C10", "hostile_finalize_rejected", False,
+                      f"finalize({k}) raised {e!r}")
+            # the schedule must be exactly where it was
+            try:
+                mx = s.max_n
+                ex.ck("C08", "max_n_after_rejected_finalize",
+                      (mx == n_true) if ex.finalized else (mx is None),
+                      f"after the rejected finalize({k}) max_n reads {mx} "
+                      f"(finalised={ex.finalized}, true n={n_true})")
+            except Exception:
+                pass
         try:
             if protocol == "for":
                 # the documented idiom: `for a in schedule: ...; if
@@ -184,6 +216,11 @@ def run_stream(cfg, passes=1, observe=None, rng=None, record=False,
         idx += 1
         if record:
             actions.append(act_tuple(a))
+        if isinstance(a, Forward) and not ex.finalized:
+            try:
+                told = int(a.n1)
+            except Exception:
+                pass
         need_fin = ex.step(a)
         if need_fin and late_left > 0:
             # late finalisation: ask for further actions first
